@@ -85,12 +85,69 @@ def check_mutant(sub, mutations, tnow):
     return sites, None
 
 
+def drive_controller(ct, mu, ms, randomness, ops, sub, total, mkind, script, seed):
+    """Drive ONE real MutationController through a call sequence.  script: list of ("count",) |
+    ("advance", k) | ("count+create",) | ("create",).  Returns None or (signature, message, log)."""
+    if mkind == "first-order":
+        mutator = mu.FirstOrderMutator(ops)
+    elif mkind.startswith("capped:"):
+        _, cap, reorder = mkind.split(":")
+        mutator = mu.FirstOrderMutator(ops, maximum_mutants=int(cap), sampling_seed=seed, reorder=reorder == "1")
+    else:
+        name, order_n = mkind.split(":")
+        mutator = mu.HighOrderMutator(ops, getattr(ms, name)(int(order_n)))
+    controller = ct.MutationController(mutator, sub.tree, sub.module)
+    randomness.RNG.seed(seed)
+    log = []
+    for step in script:
+        if step[0] == "advance":
+            for _ in range(step[1]):
+                randomness.next_int()
+            log.append(step)
+            continue
+        reported = controller.mutant_count() if step[0] in ("count", "count+create") else None
+        yielded = None
+        if step[0] in ("create", "count+create"):
+            yielded = sum(1 for _ in controller.create_mutants())
+        log.append((step[0], reported, yielded))
+        r = sub.intact()
+        if r:
+            return (r + ":controller", f"{sub.name}: {mkind} controller step {step[0]} changed the original tree", log)
+        if step[0] == "count+create":
+            # first-order (also capped): the count is the pre-truncation total of the FULL enumeration;
+            # higher-order: the enumeration that directly follows (same RNG state) is the full enumeration
+            expect = total if not mkind[0].isupper() else yielded
+            if reported != expect:
+                return ("count:controller-disagrees-with-enumeration",
+                        f"{sub.name}: {mkind}: mutant_count() = {reported}, the enumeration that follows yields {yielded}"
+                        + (f" (full first-order enumeration: {total})" if not mkind[0].isupper() else ""), log)
+            if not mkind[0].isupper() and mkind == "first-order" and yielded != total:
+                return ("count:controller-disagrees-with-enumeration",
+                        f"{sub.name}: first-order create_mutants() yields {yielded}, per-operator total {total}", log)
+    return None
+
+
+def gen_script(rng):
+    script = [("count",)] if rng.random() < 0.8 else []
+    for _ in range(rng.choice([2, 3, 4])):
+        c = rng.random()
+        if c < 0.75:
+            script.append(("advance", rng.randrange(0, 6)))
+        if c < 0.15:
+            script.append(("create",))
+        elif c < 0.3:
+            script.append(("count",))
+        script.append(("count+create",))
+    return script
+
+
 def run(ctx: vlib.Ctx):
     vlib.setup_impl_path()
     ctx.digest_sources(SRC)
     ctx.coq_static()
     if not ctx.quick:
         ctx.coqchk()
+    import pynguin.assertion.mutation_analysis.controller as ct
     import pynguin.assertion.mutation_analysis.mutators as mu
     import pynguin.assertion.mutation_analysis.operators as mo
     import pynguin.assertion.mutation_analysis.strategies as ms
@@ -102,6 +159,7 @@ def run(ctx: vlib.Ctx):
     strategies = [ms.FirstToLastHOMStrategy, ms.EachChoiceHOMStrategy, ms.BetweenOperatorsHOMStrategy, ms.RandomHOMStrategy]
     corpus = json.loads((vlib.VERIF / "corpus" / "C28.json").read_text())
     subjects = [("gen", c["name"], c["source"]) for c in corpus]
+    corpus_scripts = {c["name"]: c["controller"] for c in corpus if "controller" in c}
     n_gen, n_std = (3, 2) if ctx.quick else (24, 10)
     for i in range(n_gen):
         subjects.append(("gen", f"genmod{i}", G.gen_module(rng, rng.choice([1, 2] if ctx.quick else [1, 2, 3]))))
@@ -318,6 +376,25 @@ def run(ctx: vlib.Ctx):
                          ("homcase", name, strat.__name__, tuple(p for p, _ in sites)))
             hom_case = None
 
+        # --- the real MutationController on call sequences count / advance RNG / count / create_mutants
+        if kind == "gen" and sub.size <= (700 if ctx.quick else 1300):
+            runs = []
+            for cs in corpus_scripts.get(name, []):
+                runs.append((cs["mutator"], [tuple(x) for x in cs["script"]], cs["seed"]))
+            kinds = ["first-order", f"capped:{max(1, total // 2)}:1"]
+            kinds += [f"{st.__name__}:{rng.choice([2, 2, 3])}" for st in (rng.sample(strategies[:3], 1) if ctx.quick else strategies)]
+            kinds += ["RandomHOMStrategy:2"] * 2
+            for mk in kinds:
+                runs.append((mk, gen_script(rng), rng.randrange(10**6)))
+            for mk, script, seed in runs:
+                r = drive_controller(ct, mu, ms, randomness, ops, sub, total, mk, script, seed)
+                ctx.case_seen(("controller", name, mk, tuple(script), seed), nontrivial=total > 0)
+                ctx.count("controller:" + mk.split(":")[0])
+                if r:
+                    fail(r[0], r[1], {**base_replay, "controller": {"mutator": mk, "script": [list(x) for x in script], "seed": seed}, "log": [list(x) for x in r[2]]})
+                    if r[0].startswith("original"):
+                        raise _Abort
+
     for kind, ident, src in subjects:
         try:
             one(kind, ident, src)
@@ -388,6 +465,16 @@ def replay(ctx, path):
     ops = [*mo.standard_operators, *mo.experimental_operators]
     name, source, module = load_subject(d["kind"], d["name"], d.get("source"))
     sub = Subject(name, source, module, PNT)
+    if "controller" in d:
+        import pynguin.assertion.mutation_analysis.controller as ct
+        import pynguin.assertion.mutation_analysis.strategies as ms
+        from pynguin.utils import randomness
+
+        total = sum(1 for op in ops for _ in op.mutate(sub.tree, sub.module))
+        c = d["controller"]
+        r = drive_controller(ct, mu, ms, randomness, ops, sub, total, c["mutator"], [tuple(x) for x in c["script"]], c["seed"])
+        print("controller run:", r if r else "count agrees with the enumeration at every count+create step")
+        return 0
     if "operator" in d and "events" in d:
         op = next(o for o in ops if o.__name__ == d["operator"])
         g = op.mutate(sub.tree, sub.module)
